@@ -193,11 +193,27 @@ class Interp:
             return self.ev(e['e'], env, members)
         if k == 'sizeof' and e.get('cv') is not None:
             return int(e['cv'])
+        if k == 'nullptr':
+            return 0
+        if k == 'new':
+            pl = [self.ev(x, env, members) for x in (e.get('placement') or [])]
+            init = e.get('init')
+            iv = self.ev(init, env, members) if init is not None else None
+            if self.call_hook is not None:
+                r = self.call_hook(e, pl + [iv], env, members)
+                if r is not None:
+                    return r
+            if pl and hasattr(pl[0], 'construct'):
+                pl[0].construct(iv)
+                return pl[0]
+            raise Unsupported('new-expression %s' % show(e)[:50])
         if k == 'this':
             if '__this__' in env:
                 return env['__this__']
             raise Unsupported('this')
         if k == 'lit':
+            if e.get('cv') is None and e.get('null'):
+                return 0
             return int(e['cv']) if e.get('cv') is not None else _undef('literal')
         if k == 'str':
             return bytes(e.get('bytes') or [])
@@ -215,6 +231,8 @@ class Interp:
             if e.get('cv') is not None and strip(e) is not None and strip(e).get('k') not in ('ref', 'member'):
                 return int(e['cv'])
             v = self.ev(e['e'], env, members)
+            if not isinstance(v, int):
+                return v.cast_to(e.get('t')) if hasattr(v, 'cast_to') else v
             if e.get('ck') in ('LValueToRValue', 'NoOp'):
                 return v
             if e.get('ck') == 'IntegralToBoolean':
@@ -231,12 +249,15 @@ class Interp:
             if b is not None and b.get('k') == 'this':
                 if e['name'] in members:
                     return members[e['name']]
+                if hasattr(env.get('__this__'), 'get_member'):
+                    th = env['__this__']
+                    return th.get_member(e['name']) if e.get('name') else th
                 raise Unsupported('unbound member %s' % e['name'])
             if b is not None and b.get('k') != 'this':
                 root = b
                 while root is not None and root.get('k') == 'member':
                     root = strip(root.get('base'))
-                if root is not None and root.get('k') in ('ref', 'call', 'un', 'this'):
+                if root is not None:
                     try:
                         bv = self.ev(e['base'], env, members)
                     except Unsupported:
@@ -268,6 +289,10 @@ class Interp:
                 return v                    # the address of a model object is the object
             if op == '*' and not isinstance(v, int):
                 return v.deref() if hasattr(v, 'deref') else v
+            if op == '*' and isinstance(v, int) and self.memory is not None:
+                w_, sg_ = width(e.get('t'))
+                val_ = self.load(v, max(1, w_ // 8))
+                return wrap(val_, e.get('t'))
             if op == '!':
                 return 0 if v else 1
             if op == '-':
@@ -310,7 +335,10 @@ class Interp:
                         return 1 if same else 0
                     if op == '!=':
                         return 0 if same else 1
-                    raise Unsupported('ordering comparison of model objects')
+                    try:
+                        return 1 if {'<': l < r, '<=': l <= r, '>': l > r, '>=': l >= r}[op] else 0
+                    except TypeError:
+                        raise Unsupported('ordering comparison of model objects')
                 return 1 if {'==': l == r, '!=': l != r, '<': l < r, '<=': l <= r, '>': l > r, '>=': l >= r}[op] else 0
             res = self.arith(op, l, r, e)
             if op in ('+', '-', '*'):
@@ -352,16 +380,43 @@ class Interp:
                 return BUILTINS[name](args)
             g = self.facts.by_id.get(e.get('cid')) if self.facts is not None else None
             if g is not None and len(g.params) == len(args) and e.get('obj') is None:
-                return Interp(g, self.facts, self.call_hook, self.max_steps).run({p['id']: a for p, a in zip(g.params, args)}, {})[0]
+                sub_ = Interp(g, self.facts, self.call_hook, self.max_steps)
+                sub_.memory = self.memory
+                sub_.mem_stores = self.mem_stores
+                return sub_.run({p['id']: a for p, a in zip(g.params, args)}, {})[0]
             if g is not None and len(g.params) == len(args) and e.get('obj') is not None and strip(e['obj']) is not None and strip(e['obj']).get('k') == 'this':
                 # a method of the same object: it shares the member state
                 sub = Interp(g, self.facts, self.call_hook, self.max_steps)
                 sub.mem_stores = self.mem_stores
+                sub.memory = self.memory
                 r, _, mem2, _ = sub.run({p['id']: a for p, a in zip(g.params, args)}, members)
                 members.clear()
                 members.update(mem2)
                 return r
             raise Unsupported('call of %s' % name)
+        if k == 'sub':
+            # a constant global table: the element from its initialiser
+            b_ = strip(e.get('base'))
+            while b_ is not None and b_.get('k') == 'cast':
+                b_ = strip(b_.get('e'))
+            if b_ is not None and b_.get('k') == 'ref' and b_.get('dk') == 'global' and b_.get('id') not in env and self.facts is not None:
+                for st_ in self.facts.statics:
+                    if st_.get('id') == b_['id'] and st_.get('const') and isinstance(st_.get('value'), dict) and 'arr' in st_['value']:
+                        arr_ = st_['value']['arr']
+                        ix = self.ev(e.get('idx'), env, members)
+                        if not isinstance(ix, int) or not 0 <= ix < len(arr_):
+                            raise UndefinedBehaviour('index %s into %s[%d]' % (ix, st_['name'], len(arr_)))
+                        el = arr_[ix]
+                        if isinstance(el, (str, int)):
+                            return int(el)
+                        raise Unsupported('element of table %s' % st_['name'])
+            bv0 = None
+            try:
+                bv0 = self.ev(e['base'], env, members)
+            except Unsupported:
+                bv0 = None
+            if bv0 is not None and not isinstance(bv0, int) and hasattr(bv0, 'deref'):
+                return (bv0 + self.ev(e.get('idx'), env, members)).deref()
         if k == 'sub' and self.memory is not None:
             base = self.ev(e['base'], env, members)
             idx = self.ev(e.get('idx'), env, members)
@@ -430,6 +485,9 @@ class Interp:
             if isinstance(bv, dict):
                 bv[l['name']] = v
                 return
+            if hasattr(bv, 'set_member'):
+                bv.set_member(l['name'], v)
+                return
             path = member_path(l)
             if path is not None:
                 members[path] = v
@@ -472,6 +530,9 @@ class Interp:
                                 # a local of a type this interpreter does not model: left unbound, any later use fails
                                 env.pop(vd['id'], None)
                     continue
+                if k == 'new':
+                    self.ev(s_, env, members)
+                    continue
                 if k in ('bin', 'un', 'call', 'cond'):
                     # sub-expressions listed separately by the CFG are pure re-evaluations: only effects matter
                     if k == 'bin' and not (s_['op'] == '=' or (s_['op'].endswith('=') and s_['op'] not in ('==', '!=', '<=', '>='))) and s_['op'] != ',':
@@ -484,7 +545,11 @@ class Interp:
                         continue
                     self.ev(s_, env, members)
                     continue
-                if k in ('ref', 'lit', 'member', 'cast', 'paren', 'sub', 'autodtor', 'str'):
+                if k == 'autodtor':
+                    if self.call_hook is not None and s_.get('id') in env:
+                        self.call_hook({'k': 'autodtor', 'cname': '~auto', 'loc': s_.get('loc')}, [env[s_['id']]], env, members)
+                    continue
+                if k in ('ref', 'lit', 'member', 'cast', 'paren', 'sub', 'str'):
                     continue
                 raise Unsupported('statement kind %s' % k)
             t = B.get('term')
